@@ -33,6 +33,17 @@ INV_DTYPE_LOOKUP = {
 }
 
 
+def _arg_types(arg):
+    """The types within a condition argument. Arguments that compare equal but are of
+    different types (`1`, `1.0`, `True`) are not interchangeable (e.g. as the bounds of
+    `in_range`), so two conditions are only equal if these are the same as well."""
+    if isinstance(arg, (list, tuple)):
+        return (type(arg), [_arg_types(i) for i in arg])
+    elif isinstance(arg, dict):
+        return (type(arg), {k: _arg_types(v) for k, v in arg.items()})
+    return type(arg)
+
+
 def _arg_to_json_like(arg, _depth=0):
     """JSON-like form of a condition argument, as `ConditionLike.from_spec` reads it back:
     data paths (as the argument, or as an item / value of a list / mapping argument) become
@@ -672,6 +683,8 @@ class Condition(ConditionLike):
             self.callable.name,
             self.callable.args,
             self.callable.kwargs,
+            _arg_types(self.callable.args),
+            _arg_types(self.callable.kwargs),
         )
 
     def _filter(self, data, data_has_paths=False, source_data=None):
